@@ -23,6 +23,7 @@ type KnownFinding struct {
 	Witness    string   `json:"witness_test,omitempty"` // path (relative to /verif) of an in-package Go test demonstrating the defect
 	Package    string   `json:"package,omitempty"`      // repo package directory the witness test is injected into (e.g. v4/collection)
 	Unprovable bool     `json:"unprovable,omitempty"`   // no guard restores the proof: the obligation is excused only while the witness reproduces
+	Race       bool     `json:"race,omitempty"`         // the witness is a data race: run it under the race detector
 	guardE     Expr
 }
 
@@ -555,12 +556,18 @@ func runWitness(repo, verifDir string, k *KnownFinding) string {
 	os.WriteFile(ovPath, data, 0o644)
 	name := strings.TrimSuffix(filepath.Base(k.Witness), ".go")
 	_ = name
-	cmd := exec.Command("go", "test", "-overlay", ovPath, "-vet=off", "-count=1", "-timeout", "60s", "-run", "TestVerifWitness", "-v", ".")
+	args := []string{"test", "-overlay", ovPath, "-vet=off", "-count=1", "-timeout", "60s", "-run", "TestVerifWitness", "-v", "."}
+	if k.Race {
+		args = append([]string{"test", "-race"}, args[1:]...)
+	}
+	cmd := exec.Command("go", args...)
 	cmd.Dir = pkgDir
 	cmd.Env = append(os.Environ(), "GOFLAGS=-mod=mod", "GOPROXY=off", "GOSUMDB=off", "GOTOOLCHAIN=local")
 	out, _ := cmd.CombinedOutput()
 	s := string(out)
 	switch {
+	case k.Race && strings.Contains(s, "WARNING: DATA RACE"):
+		return "present"
 	case strings.Contains(s, "WITNESS-DEFECT-PRESENT"):
 		return "present"
 	case strings.Contains(s, "WITNESS-DEFECT-ABSENT"):
